@@ -10,7 +10,7 @@ from vlib.ref import bip32 as R
 from vlib.util import call, expect_eq
 
 PROPERTY_ID = "C07"
-OPTIMIZED = ['versions']   # clauses run a second time under `python -O` (assert statements stripped)
+OPTIMIZED = ['versions', 'roundtrip', 'master']   # clauses run a second time under `python -O` (assert statements stripped)
 RULE = ("78-byte payloads valid per BIP32 (depth 0..255, fingerprint/child number zero iff depth 0, chain code, "
         "00||k or serP(kG)) serialised by the reference under all twelve SLIP-132 versions (exhaustive per case) and "
         "parsed from str / bytes / BytesIO; unknown versions from bit flips, multisig SLIP-132 and uniform 32-bit")
@@ -100,6 +100,24 @@ def check_roundtrip(case, ctx):
                 if st_ == "exc" or sc != want_c:
                     raise Violation("C07/derived/serialisation-after-parent-dropped", "%s: child of a temporary parsed node "
                                     "serialises as %r, expected %s" % (tag, sc, want_c))
+                # the same child built with the public constructor and `parent=` an object that has derived nothing
+                par = cls(key=(ref.k.to_bytes(32, "big") if private else ref.sec()), chain_code=case["c"], index=ref.index,
+                          depth=ref.depth, testnet=testnet, parent_fingerprint=ref.pfp)
+                ckey = rchild.k.to_bytes(32, "big") if private else rchild.sec()
+                st_, built = call(cls, key=ckey, chain_code=rchild.c, index=1, depth=ref.depth + 1, testnet=testnet, parent=par)
+                if st_ == "ok":
+                    st_, sc = call(built.extended_private_key if private else built.extended_public_key, version=v)
+                    if st_ == "exc" or sc != want_c:
+                        raise Violation("C07/constructed-with-parent/serialisation", "%s: node constructed with parent=<node "
+                                        "without recorded children> serialises as %r, expected %s" % (tag, sc, want_c))
+                    st_, pf = call(lambda: bytes(built.parent_fingerprint))
+                    if st_ == "exc" or pf != rchild.pfp:
+                        raise Violation("C07/constructed-with-parent/parent-fingerprint", "%s: node constructed with "
+                                        "parent=<node> reports parent fingerprint %r, expected %s" % (tag, pf, rchild.pfp.hex()))
+                    st_, back = call(cls.parse, want_c, testnet)
+                    if st_ == "ok" and not (back == built):
+                        raise Violation("C07/constructed-with-parent/not-equal-to-parsed", "%s: node constructed with parent=<node> "
+                                        "!= node parsed from its serialisation" % tag)
         # a stream whose current position is not 0 (header already consumed, nodes back to back)
         stream = BytesIO(b"\xaa" * 5 + raw + raw[:40])
         stream.read(5)
